@@ -90,6 +90,29 @@ def analyse():
                 scan_import_time(node, "module level")
         out.append({'id': f"{rel}/import_time/no_entropy", 'ok': not bad_import, 'function': rel, 'file': rel,
                     'detail': '; '.join(bad_import)})
+        # mutable state shared by all instances of a class (a class-level set / list / dict) or by the module: results would
+        # depend on library objects used before
+        shared = []
+
+        def _mutable_value(v):
+            if isinstance(v, (ast.List, ast.Dict, ast.Set, ast.ListComp, ast.DictComp, ast.SetComp)):
+                return True
+            if isinstance(v, ast.Call):
+                d = _dotted(v.func)
+                return d is not None and d[-1] in ('set', 'list', 'dict', 'defaultdict', 'deque', 'OrderedDict', 'Counter')
+            return False
+        for node in mod.tree.body:
+            if isinstance(node, ast.ClassDef):
+                for n in node.body:
+                    tg, v = None, None
+                    if isinstance(n, ast.Assign) and len(n.targets) == 1 and isinstance(n.targets[0], ast.Name):
+                        tg, v = n.targets[0].id, n.value
+                    elif isinstance(n, ast.AnnAssign) and isinstance(n.target, ast.Name) and n.value is not None:
+                        tg, v = n.target.id, n.value
+                    if tg and not tg.startswith('__') and _mutable_value(v):
+                        shared.append(f"line {n.lineno}: class attribute {node.name}.{tg} is a mutable container shared by all instances")
+        out.append({'id': f"{rel}/class_state/no_shared_mutable", 'ok': not shared, 'function': rel, 'file': rel,
+                    'detail': '; '.join(shared)})
         funcs = [(None, f) for f in mod.functions.values()]
         for cname, (cdef, methods, bases) in mod.classes.items():
             funcs += [(cname, m) for m in methods.values()]
